@@ -113,7 +113,7 @@ Proof.
     destruct (a <? b) eqn:E; [rewrite Z.div_1_r|]; lia. }
   rewrite Hrl. rewrite <- HA.
   destruct (ins_layout ph seps sepsb Hseps Hsepsb pre pht A (del_tail A M B) post (map item_of (A ++ (M ++ B))) (M ++ B) vs sbl fr)
-    as ((fr' & Hi) & Hwf' & Hit); [exact Hwf1|reflexivity|exact Hsbl|exact Hdon1|].
+    as (Hi & Hwf' & Hit); [exact Hwf1|reflexivity|exact Hsbl|exact Hdon1|].
   rewrite Hi. rewrite del_tail_items in Hit.
   assert (Hset : list_set_slice (map item_of (A ++ M ++ B)) (slice_from_range (mkrng (zlen A) b 1)) (map node_item vs)
                  = Ok (map item_of A ++ map node_item vs ++ map item_of B)).
